@@ -283,18 +283,51 @@ Definition interpolate2 (st : state2) (x y : T) : res (state2 * (Z * Z * T)) :=
                        (m (m (s one t) u) f3)) in
   Ok (mkState2 sx1 sy1 (pf2 st), (i, j, v)).
 
+(** double Interpolation_2D::Global_Minimum() / Global_Maximum():
+      for(auto& row : function_values) { row_minima.push_back( *std::min_element(row.begin(), row.end()));
+                                         row_maxima.push_back( *std::max_element(row.begin(), row.end())); }
+      f_min = *std::min_element(row_minima...);  f_max = *std::max_element(row_maxima...);
+      return std::min(prefactor * f_min, prefactor * f_max);      (std::max for Global_Maximum)
+    std::min_element / std::max_element return the FIRST smallest / largest element; dereferencing the end iterator of an
+    empty range is [OOB].  The members read: function_values and prefactor — neither helper object. *)
+Fixpoint min_from (cur : T) (l : list T) : T :=
+  match l with [] => cur | v :: r => min_from (if nltb Ops v cur then v else cur) r end.
+Fixpoint max_from (cur : T) (l : list T) : T :=
+  match l with [] => cur | v :: r => max_from (if nltb Ops cur v then v else cur) r end.
+Definition min_element (l : list T) : res T := match l with [] => OOB | a :: r => Ok (min_from a r) end.
+Definition max_element (l : list T) : res T := match l with [] => OOB | a :: r => Ok (max_from a r) end.
+Fixpoint map_res {A B : Type} (f : A -> res B) (l : list A) : res (list B) :=
+  match l with
+  | [] => Ok []
+  | a :: r => let* b := f a in let* rest := map_res f r in Ok (b :: rest)
+  end.
+Definition zrange (n : Z) : list Z := map Z.of_nat (seq 0 (Z.to_nat n)).
+Definition rows2 : list (list T) := map (fun i => map (fun j => fv i j) (zrange Ny)) (zrange Nx).
+Definition glob2 (mx : bool) (p : T) : res T :=
+  let* row_minima := map_res min_element rows2 in
+  let* row_maxima := map_res max_element rows2 in
+  let* f_min := min_element row_minima in
+  let* f_max := max_element row_maxima in
+  Ok ((if mx then nmax Ops else nmin Ops) (nmul Ops p f_min) (nmul Ops p f_max)).
+
 Inductive op2 : Type :=
 | Op2Interpolate (x y : T)
 | Op2SetPrefactor (f : T)
 | Op2Multiply (f : T)
-| Op2Copy.
+| Op2Copy
+| Op2GlobalMin
+| Op2GlobalMax.
 
 Inductive out2 : Type :=
 | O2Value (i j : Z) (v : T)
 | O2None
 | O2Exit
 | O2OOB
-| O2Fuel.
+| O2Fuel
+| O2Glob (v : T).
+
+Definition wrap2 (st : state2) (r : res T) : state2 * out2 :=
+  match r with Ok v => (st, O2Glob v) | Exit => (st, O2Exit) | OOB => (st, O2OOB) | Fuel => (st, O2Fuel) end.
 
 Definition step2 (st : state2) (o : op2) : state2 * out2 :=
   match o with
@@ -306,6 +339,8 @@ Definition step2 (st : state2) (o : op2) : state2 * out2 :=
   | Op2SetPrefactor f => (mkState2 (sx st) (sy st) f, O2None)
   | Op2Multiply f => (mkState2 (sx st) (sy st) (nmul Ops (pf2 st) f), O2None)
   | Op2Copy => (st, O2None)
+  | Op2GlobalMin => wrap2 st (glob2 false (pf2 st))
+  | Op2GlobalMax => wrap2 st (glob2 true (pf2 st))
   end.
 
 Definition run2 (h : list op2) (st : state2) : state2 := fold_left (fun s o => fst (step2 s o)) h st.
@@ -346,15 +381,17 @@ Record object1 : Type := mkObject1 {
   o_dom : T * T;          (* domain *)
   o_state : state T }.    (* jLast, correlated_calls, prefactor *)
 
-(** Interpolation(arg_values, func_values, x_dim, f_dim) *)
+(** Interpolation(arg_values, func_values, x_dim, f_dim): the two length checks, the unit conversion of both
+    tables, THEN the strict-increase loop on the converted x_values (the units they are stored in), then
+    domain = {x_values[0], x_values[N-1]} *)
 Definition construct1 (xs fs : list T) (x_dim f_dim : T) : res object1 :=
   if negb (Nat.eqb (length xs) (length fs)) then Exit
   else if Nat.ltb (length xs) 2 then Exit
-  else if negb (strictly_increasing xs) then Exit
   else
     let xs' := scale_units x_dim xs in
     let fs' := scale_units f_dim fs in
-    Ok (mkObject1 xs' fs' (nth0 Ops xs' 0, nth0 Ops xs' (length xs - 1)) (init Ops)).
+    if negb (strictly_increasing xs') then Exit
+    else Ok (mkObject1 xs' fs' (nth0 Ops xs' 0, nth0 Ops xs' (length xs - 1)) (init Ops)).
 
 (** Interpolation(data, x_dim, f_dim): rows (x, f), then *this = Interpolation(x, f, x_dim, f_dim) *)
 Fixpoint split_rows2 (data : list (list T)) : res (list T * list T) :=
